@@ -38,8 +38,7 @@ class ServiceBinner:
         if service.request is None:
             return None
 
-        prefix = 0  # prefix of constant parameters
-        cursor = 0  # bit position of the next parameter
+        cursor = 0  # number of leading bits defined by constants
         for param in service.request.parameters:
             if not isinstance(param, CodedConstParameter):
                 # we *need* at least the first byte of a request to be statically defined!
@@ -52,15 +51,13 @@ class ServiceBinner:
             if not isinstance(param.coded_value, int):
                 return None
 
-            prefix <<= param_len
-            prefix |= param.coded_value & ((1 << param_len) - 1)
             cursor += param_len
 
             if cursor >= 8:
-                # we have a prefix that is at least 8 bits
-                # long. return its most significant byte.
-                prefix >>= cursor - 8
-                return prefix & 0xff
+                # we have a prefix that is at least 8 bits long. return
+                # the first byte of its encoding (this honors the byte
+                # order and the bit positions of the constants.)
+                return service.request.coded_const_prefix()[0]
 
         return None
 
